@@ -116,7 +116,7 @@ def gen(tier, rng):
         for g in targets:
             cases.append((t, [(g, rng.choice(NEWS), rng.choice([None, 'c', '']))], rng.random() < .3, rng.random() < .2))
     nex = len(cases)
-    words = ['alpha', 'beta', 'The', 'fox', '**bold**', '_it_', '[___]', '“q”', '- item', '1. one', 'a_b', 'x']
+    words = ['alpha', 'beta', 'The', 'fox', '**bold**', '_it_', '[___]', '“q”', '"q"', "it's", 'it’s', '- item', '1. one', 'a_b', 'x']
     for _ in range(nrand):
         if rng.random() < .5:
             t = rng.choice(texts) + rng.choice(texts)
